@@ -41,7 +41,7 @@ def body(prog, args, mode="run"):
         elif k == "logpdf":
             x = pick(st[1])
             loc = bc(x, pick(st[2]))
-            sc = jax.nn.softplus(bc(x, pick(st[3]))) + 0.5
+            sc = jax.nn.softplus(bc(x + loc, pick(st[3]))) + 0.5  # mutually broadcastable with value *and* location
             v = normal.logpdf(x, loc, sc)
         elif k == "sample":
             loc = pick(st[1])
